@@ -350,11 +350,14 @@ def main(argv=None):
         for sig, e in sorted(viol.items(), key=lambda kv: kv[1]["first"]):
             k = match_known(findings, mod.PROP, sig)
             if k is not None:
-                known_lines.append({"signature": sig, "runs": e["runs"], "finding": k["id"]})
-                print(f"KNOWN-FINDING: property={mod.PROP} {k['what']} [signature {sig}; {e['runs']} runs; "
-                      f"first run {e['first']}]")
+                known_lines.append({"signature": sig, "runs": e["runs"], "finding": k["id"], "first_run": e["first"]})
             else:
                 unknown.append((sig, e))
+        for fid in sorted({kl["finding"] for kl in known_lines}):
+            k = next(f for f in findings if f["id"] == fid)
+            mine = [kl for kl in known_lines if kl["finding"] == fid]
+            print(f"KNOWN-FINDING: property={mod.PROP} {k['what']} [{fid}; {sum(m['runs'] for m in mine)} runs, "
+                  f"{len(mine)} signatures, first run {min(m['first_run'] for m in mine)}]")
         vio_out = []
         rc = 0
         for n_done, (sig, e) in enumerate(unknown):
